@@ -22,6 +22,8 @@ def run(ctx, clause_prefixes):
   nontrivial = 0
   samples = []
   cover = {}
+  sched_ok = 0
+  sched_rejected = []
   for cfg, perms, sample in CONFIGS[ctx.tier]:
     out = os.path.join(ctx.workdir, "programs-%s.json" % cfg)
     sim = cfg == "MC_Recalc_4.cfg"
@@ -48,8 +50,16 @@ def run(ctx, clause_prefixes):
       json.dump({"cols": spec["cols"], "rows": spec["rows"], "programs": progs[i::n]}, open(p, "w"))
       args.append({"inp": p, "out": os.path.join(ctx.workdir, "cases-%s-%02d.json" % (cfg, i)),
                    "perms": perms, "seed": ctx.seed})
+      if not sim:
+        args[-1]["events"] = os.path.join(ctx.workdir, "events-%s-%02d.json" % (cfg, i))
     corpus.run_workers("fn_recalc.py", args)
     files = [a["out"] for a in args]
+    # C->S: the scheduler events recorded while the engine ran each program (make / pop / eval, with
+    # arguments and outcomes) must be a behaviour of Recalc.tla (spec/Trace_Recalc.tla)
+    if not sim:
+      acc, rej = sched_traces([a["events"] for a in args], ctx)
+      sched_ok += acc
+      sched_rejected += rej
     fails, ncases, _ = fnspec.judge("Trace_RecalcFinal", files, ctx.workdir)
     n_total += ncases
     all_fail += fails
@@ -82,6 +92,11 @@ def run(ctx, clause_prefixes):
     return case
   if not fnspec.mutation_selftest("Trace_RecalcFinal", files[0], mutate, ctx.workdir):
     raise tlc.MachineryError("self-test: corrupted case accepted by Trace_RecalcFinal")
+  for r in sched_rejected[:5]:
+    # not a verdict on the property by itself (the final cells are judged above): the engine took a
+    # scheduler step the model does not have, so the model-checked invariants no longer transfer
+    print("NOTE: scheduler trace %s not a behaviour of Recalc.tla (event %d, model pc=%s)" % (
+      r["tid"], r["l"], r["pc"]))
   viol = [{"clause": c, "what": "program same=%s cross=%s order=%s -> %s" % (
               f["case"]["same"], f["case"]["cross"], f["case"]["perm"], f["case"]["vals"]),
            "case": f["case"]}
@@ -98,8 +113,37 @@ def run(ctx, clause_prefixes):
     "assumptions": ["TLC", "harness/sched.py schedule wrapper (GRIST_VERIF_WRAP=1)",
                     "harness/fn_recalc.py renders `1 + $X + $R.Y` formulas; cross-row reads go through a Ref column"],
     "violations": viol,
-    "extra": {"model_action_coverage": cover},
+    "extra": {"model_action_coverage": cover,
+              "scheduler_traces_accepted_by_Recalc_tla": sched_ok,
+              "scheduler_traces_rejected": [{k: r[k] for k in ("tid", "l", "pc")} for r in sched_rejected[:20]]},
   }
+
+
+def sched_traces(event_files, ctx):
+  """Validate recorded scheduler traces against Recalc.tla; returns (accepted count, rejected records)."""
+  files = []
+  for f in event_files:
+    d = json.load(open(f))
+    if d["traces"]:
+      files.append(f)
+  res, wall = tlc.validate_shards("Trace_Recalc", files, ctx.workdir)
+  n = sum(len(json.load(open(f))["traces"]) for f in files)
+  if len(res) != n:
+    raise tlc.MachineryError("Trace_Recalc judged %d of %d scheduler traces" % (len(res), n))
+  # binding self-test: a trace with a corrupted evaluation result must be rejected
+  d = json.load(open(files[0]))
+  for t in d["traces"]:
+    evs = [e for e in t["events"] if e["e"] == "eval" and e["out"] == "value"]
+    if evs:
+      evs[-1]["val"] = 12345
+      sp = os.path.join(ctx.workdir, "selftest-events.json")
+      json.dump({"cols": d["cols"], "rows": d["rows"], "traces": [t]}, open(sp, "w"))
+      sv, _ = tlc.validate_shards("Trace_Recalc", [sp], ctx.workdir, parallel=1)
+      if sv[0]["ok"]:
+        raise tlc.MachineryError("self-test: corrupted scheduler trace accepted by Trace_Recalc")
+      break
+  ctx.log("Trace_Recalc: %d scheduler traces, %d rejected (%.1fs)" % (n, sum(not r["ok"] for r in res), wall))
+  return sum(1 for r in res if r["ok"]), [r for r in res if not r["ok"]]
 
 
 def replay(ctx, data, clause_prefixes):
